@@ -262,7 +262,7 @@ impl<'db> Scorer<'db> {
                 .preliminary
                 .iter()
                 .filter_map(|pre| {
-                    if pre.peptide == PeptideIx::default() {
+                    if pre.matched == 0 {
                         return None;
                     }
                     let (score, _) = self.score_candidate(query, pre);
@@ -278,8 +278,8 @@ impl<'db> Scorer<'db> {
         } else {
             hits.preliminary
                 .iter()
+                .filter(|x| x.matched > 0)
                 .map(|x| x.peptide)
-                .filter(|&peptide| peptide != PeptideIx::default())
                 .collect()
         }
     }
@@ -472,7 +472,7 @@ impl<'db> Scorer<'db> {
         let mut score_vector = hits
             .preliminary
             .iter()
-            .filter(|score| score.peptide != PeptideIx::default())
+            .filter(|score| score.matched > 0)
             .map(|pre| self.score_candidate(query, pre))
             .filter(|s| (s.0.matched_b + s.0.matched_y) >= self.min_matched_peaks)
             .collect::<Vec<_>>();
